@@ -1,6 +1,7 @@
 (** Property C02: argument conditions are exact unsigned 64-bit comparisons, for both byte orders. *)
 From Coq Require Import List NArith Bool String.
-From Seccomp Require Import Words Result Machine Assembler Policy Spec CompileProofs CoreTheorems CoreExamples.
+From Seccomp Require Import Words Result Machine Assembler Policy Spec CompileProofs CoreTheorems CoreExamples Codegen.
+From Gen Require Import GenConsts GenCodegen.
 Import ListNotations.
 Open Scope N_scope.
 
@@ -54,6 +55,40 @@ Theorem C02_relations : forall a v,
   rel OpSet a v = negb (N.land a v =? 0) /\ rel OpNSet a v = (N.land a v =? 0).
 Proof. intros a v. repeat split. Qed.
 Print Assumptions C02_relations.
+
+(** ** The tie to the source at the level of the code generator itself.
+    [cond_chain], [shape_LdHi], [shape_LdLo] (gen/GenCodegen.v) are REGENERATED from filter.go / assembler.go on every
+    run: the if/else chain of SyscallWithConditions.Assemble rendered as builder-call templates, and the form of the
+    two load helpers. The chain in the source means, for EVERY condition, labels and byte order, exactly the items of
+    the model's [gen_cond] - so C02_condition_lowering speaks about the code that is in the source now. *)
+Theorem C02_source_chain_is_the_model : forall le c mt nm n,
+  chain_gen le cond_chain c mt nm n = Some (gen_cond le c mt nm n).
+Proof. apply chain_ok_sound. vm_compute. reflexivity. Qed.
+Print Assumptions C02_source_chain_is_the_model.
+
+(** the chain has no default branch (an unknown operation emits nothing - which is why Validate must reject it, C07),
+    and the statements around it allocate nextArgument, choose match, and place nextArgument behind the chain *)
+Theorem C02_source_chain_context :
+  cond_chain_has_default = false /\
+  cond_loop_body = ["nextArgument := p.NewLabel()"; "match := nextArgument"; "isLast := i == len(conditions)-1";
+                    "if isLast { match = action }"; "<chain>"; "p.SetLabel(nextArgument)"]%string.
+Proof. split; reflexivity. Qed.
+Print Assumptions C02_source_chain_context.
+
+(** LdHi adds one word on little-endian, LdLo on big-endian, to argumentOffset + sizeOfUint64*arg; with the values the
+    Go type checker gives these constants on EVERY build target (16, 8, 4 - also on 32-bit targets) that is [ld_off] *)
+Theorem C02_source_load_offsets :
+  shape_ok shape_LdHi "binary.LittleEndian" = true /\ shape_ok shape_LdLo "binary.BigEndian" = true /\
+  (forall t, In t targets -> tc_argumentOffset t = 16 /\ tc_sizeOfUint64 t = 8 /\ tc_sizeOfUint32 t = 4) /\
+  (forall arg plus, shape_offset 16 8 4 plus arg = ld_off arg plus).
+Proof.
+  split; [reflexivity|]. split; [reflexivity|]. split; [|exact ld_off_is_source].
+  assert (H: forallb (fun t => (tc_argumentOffset t =? 16) && (tc_sizeOfUint64 t =? 8) && (tc_sizeOfUint32 t =? 4)) targets = true) by (vm_compute; reflexivity).
+  rewrite forallb_forall in H. intros t Hin. specialize (H t Hin).
+  apply andb_true_iff in H. destruct H as [H H3]. apply andb_true_iff in H. destruct H as [H1 H2].
+  apply N.eqb_eq in H1, H2, H3. auto.
+Qed.
+Print Assumptions C02_source_load_offsets.
 
 (** non-vacuity: the hypotheses are met by a concrete policy (bit 63 of argument 5) *)
 Theorem C02_nonvacuous :
